@@ -20,7 +20,7 @@ def run_case(case):
     keys = {}
     for p, d in r["props"].items():
         if d.get("violations"):
-            keys[p] = [[v["key"], v["detail"]] for v in d["violations"][:6]]
+            keys[p] = [[v["key"], v["detail"]] for v in d["violations"][:60]]
     out["keys"] = keys
     out["nontrivial"] = [p for p, d in r["props"].items() if d.get("nontrivial")]
     return out
